@@ -1,5 +1,5 @@
 CONSTANTS OwnSca = 500  Check = {"C21","C22","C23"}
-  MaxSteps = 4  Lats = {2}  DsNeg = {1}  DsPos = {0, 1, 2}  IndKinds = {"upd", "chm", "phy"}  Starts = {0}  ConnInt = 6  ConnTo = 100  Cancels = TRUE
+  MaxSteps = 4  Lats = {2}  DsNeg = {1}  DsPos = {0, 1, 2}  IndKinds = {"upd", "chm", "phy"}  Starts = {0}  ConnInt = 6  ConnTo = 100  Cancels = FALSE
 SPECIFICATION MCSpec
 INVARIANTS TypeOK WindowHit ChannelAgree PhyAgree SkipBound NoJumpOverInstant
 CHECK_DEADLOCK FALSE
